@@ -4,7 +4,7 @@ triggers: operator, identifiers, constants).  A validation that disappears from 
 preamble byte then reaches a shift amount, an allocation size or an index unchecked."""
 import json
 import os
-from astu import inline_single_returns, reach_tagged, C, ctxt, gt_pair, eq_const, reach, reach_txt, ctext, strip, walk, txt, short, functions_by, always_throws, stmts_of
+from astu import struct_like, inline_single_returns, reach_tagged, C, ctxt, gt_pair, eq_const, reach, reach_txt, ctext, strip, walk, txt, short, functions_by, always_throws, stmts_of
 from vlib.core import ob, VERIF
 import triggers
 
@@ -74,7 +74,11 @@ def inlined_guards(fn, by_pat, env=None, depth=0):
     def v(n):
         if n.get("k") == "Call" and n.get("cpat"):
             cal = by_pat.get(n["cpat"])
-            if cal is not None and cal is not fn and depth < 3 and is_pure_validator(cal, by_pat) and len(cal["params"]) == len(n.get("args", [])):
+            helper = cal is not None and cal.get("rect") and cal.get("rect") == fn.get("rect") and cal.get("ret") == "void" and cal.get("body") is not None \
+                and (cal.get("access", 2) != 0 or cal.get("rect") in struct_like(by_pat)) and cal.get("name") not in READER_NAMES and _throws(cal)
+            # pure validators, and private void helpers of the reader's own class that reject (a validation loop moved into a
+            # helper): their guards count as the reader's, with the parameters bound to the arguments
+            if cal is not None and cal is not fn and depth < 3 and (is_pure_validator(cal, by_pat) or helper) and len(cal["params"]) == len(n.get("args", [])):
                 cenv = dict(triggers.flat_env(cal))
                 for p, a in zip(cal["params"], n["args"]):
                     cenv[p["d"]] = ("expr", a, env)
